@@ -44,6 +44,9 @@ type cfg struct {
 	// nodup: the collection is configured WithNoDuplicates. What the subscriber "already holds" for an id ends with
 	// the item's removal: the same value written again afterwards is a new item, not a duplicate
 	nodup bool
+	// maskedNeighbour: another subscriber, registered first, with backpressure and a read mask, reads along: what
+	// is cut down for IT is its own copy - the observed subscriber still receives whole values
+	maskedNeighbour bool
 }
 
 func (c cfg) name() string {
@@ -57,6 +60,9 @@ func (c cfg) name() string {
 	}
 	if c.nodup {
 		n += "/collection with no-duplicates"
+	}
+	if c.maskedNeighbour {
+		n += "/+masked backpressured neighbour"
 	}
 	return n
 }
@@ -84,6 +90,22 @@ func body(c cfg) func() {
 		ctx, cancel := context.WithCancel(context.Background())
 		defer cancel()
 
+		if c.maskedNeighbour {
+			nm := resource.WithReadMask(&fieldmaskpb.FieldMask{Paths: []string{"default_int32"}})
+			if val != nil {
+				nch := val.Pull(ctx, resource.WithBackpressure(true), resource.WithUpdatesOnly(true), nm)
+				go func() {
+					for range nch {
+					}
+				}()
+			} else {
+				nch := col.Pull(ctx, resource.WithBackpressure(true), resource.WithUpdatesOnly(true), nm)
+				go func() {
+					for range nch {
+					}
+				}()
+			}
+		}
 		if c.leaver {
 			lctx, lcancel := context.WithCancel(context.Background())
 			defer lcancel()
@@ -367,6 +389,16 @@ func main() {
 					}
 				}
 			}
+		}
+	}
+	for _, kind := range []string{"value", "coll", "id"} {
+		for _, bp := range []bool{true, false} {
+			w := [][]string{{"upd:a:1", "upd:a:2"}}
+			if kind == "value" {
+				w = [][]string{{"set:1", "set:2"}}
+			}
+			c := cfg{kind: kind, backpressure: bp, updatesOnly: true, writers: w, maskedNeighbour: true}
+			h.Sched(c.name(), -1, -1, body(c), hx.StdOracle)
 		}
 	}
 	// a collection with an equivalence: the item is removed and created again with the value it had (and with
